@@ -21,7 +21,7 @@ ELS = ["NI", "CR", "AL", "FE"]
 FLUX, COMP = BoundaryConditions.FLUX_BC, BoundaryConditions.COMPOSITION_BC
 
 
-def mk_model(ctx, cls, nel, N, bcs, order=None, tag=""):
+def mk_model(ctx, cls, nel, N, bcs, order=None, tag="", strnames=False):
     els = ELS[:nel + 1]
     m = cls([0.0, 1.0], N, els, ["P"], record=True)
     dz = ctx.real(tag + "dz", (0.1, 1.0)); ctx.assume(dz > 0)
@@ -33,10 +33,11 @@ def mk_model(ctx, cls, nel, N, bcs, order=None, tag=""):
     for e in (order if order is not None else range(nel)):
         lk, rk = bcs[e]
         lv = ctx.real(tag + "leftBC_%s" % els[e + 1], (-0.5, 0.5)); rv = ctx.real(tag + "rightBC_%s" % els[e + 1], (-0.5, 0.5))
+        name = {FLUX: "flux", COMP: "composition"}
         if lk is not None:
-            m.boundaryConditions.setBoundaryCondition(BoundaryConditions.LEFT, lk, lv, els[e + 1])
+            m.boundaryConditions.setBoundaryCondition("left" if strnames else BoundaryConditions.LEFT, name[lk] if strnames else lk, lv, els[e + 1])
         if rk is not None:
-            m.boundaryConditions.setBoundaryCondition(BoundaryConditions.RIGHT, rk, rv, els[e + 1])
+            m.boundaryConditions.setBoundaryCondition("right" if strnames else BoundaryConditions.RIGHT, name[rk] if strnames else rk, rv, els[e + 1])
         vals[e] = (lv if lk is not None else 0.0, rv if rk is not None else 0.0)
     m.boundaryConditions.setupDefaults(m.elements)
     x = ctx.reals(tag + "x", (nel, N), (0.05, 0.3))
@@ -61,9 +62,12 @@ def check_bcs(ctx, m, nel, N, bcs, vals, J, d, dz, tag=""):
             ctx.prove(tag + "composition condition: right node does not change", ctx.eq(d[e, N - 1], 0.0))
 
 
-def single(ctx, nel=1, N=3, bcs=((None, None),), order=None):
+def single(ctx, nel=1, N=3, bcs=((None, None),), order=None, strnames=False, other_first=False):
     """single-phase model: fluxes, BCs, telescoping, interior reference"""
-    m, dz, x, vals = mk_model(ctx, SinglePhaseModel, nel, N, bcs, order)
+    if other_first:
+        # another model of the same process got non-default boundary conditions before: they must not leak into this one
+        mo, _, _, _ = mk_model(ctx, SinglePhaseModel, nel, N, tuple((COMP, FLUX) for _ in range(nel)), None, tag="other_")
+    m, dz, x, vals = mk_model(ctx, SinglePhaseModel, nel, N, bcs, order, strnames=strnames)
     Ds = []
     replay = {"on": False, "k": 0}
 
@@ -236,7 +240,7 @@ def step(ctx, model="single", kind_="euler", nel=1, N=3, bcs=((None, None),)):
     ctx.prove("profile handed to the iterator is not modified", ctx.all([ctx.eq(x[e, i], x0[e][i]) for e in range(nel) for i in range(N)]))
 
 
-def clip(ctx, nel=2, N=2, both=False):
+def clip(ctx, nel=2, N=2, both=False, strnames=False):
     """postProcess output range; setup: floor, idempotence, composition BCs on the end nodes"""
     m, dz, x, vals = mk_model(ctx, SinglePhaseModel, nel, N, tuple((COMP if e == 0 else None, None) for e in range(nel)))
     mc = ctx.real("minComposition", (1e-4, 1e-2)); ctx.assume(mc > 0); ctx.assume(mc < 0.1)
@@ -250,7 +254,7 @@ def clip(ctx, nel=2, N=2, both=False):
             ctx.prove("postProcess leaves admissible compositions alone", ctx.implies(inside, ctx.eq(m.x[e, i], xin[e, i])))
     ctx.prove("postProcess never requests a stop", stop is False)
     # ---- setup on a fresh model
-    m2, dz2, x2, vals2 = mk_model(ctx, SinglePhaseModel, nel, N, tuple((COMP if e == 0 else None, COMP if (e == 0 and both) else None) for e in range(nel)), tag="s_")
+    m2, dz2, x2, vals2 = mk_model(ctx, SinglePhaseModel, nel, N, tuple((COMP if e == 0 else None, COMP if (e == 0 and both) else None) for e in range(nel)), tag="s_", strnames=strnames)
     m2.constraints.minComposition = mc
 
     class St:
@@ -295,8 +299,9 @@ B1 = [((None, None),), ((FLUX, FLUX),), ((COMP, FLUX),), ((FLUX, COMP),), ((COMP
 B2 = [((None, None), (COMP, None)), ((FLUX, COMP), (COMP, FLUX)), ((COMP, COMP), (FLUX, FLUX))]
 HARNESSES = [
     Harness("C04.single", single, functions=_F, assumptions=_A, stubs=_S, bounds={"solutes": "nel", "nodes": "N"},
-            params={"quick": [{"nel": 1, "N": 3, "bcs": b} for b in B1] + [{"nel": 2, "N": 3, "bcs": b} for b in B2] + [{"nel": 2, "N": 3, "bcs": B2[0], "order": [1, 0]}],
-                    "thorough": [{"nel": 1, "N": 5, "bcs": b} for b in B1] + [{"nel": 2, "N": 4, "bcs": b, "order": o} for b in B2 for o in ([0, 1], [1, 0])] + [{"nel": 3, "N": 3, "bcs": ((COMP, FLUX), (None, None), (FLUX, COMP)), "order": [2, 0, 1]}]}),
+            params={"quick": [{"nel": 1, "N": 3, "bcs": b} for b in B1] + [{"nel": 2, "N": 3, "bcs": b} for b in B2] + [{"nel": 2, "N": 3, "bcs": B2[0], "order": [1, 0]}] +
+                             [{"nel": 1, "N": 3, "bcs": B1[3], "strnames": True}, {"nel": 2, "N": 3, "bcs": B2[1], "strnames": True}, {"nel": 1, "N": 3, "bcs": B1[0], "other_first": True}],
+                    "thorough": [{"nel": 1, "N": 5, "bcs": b} for b in B1] + [{"nel": 1, "N": 3, "bcs": b, "strnames": True} for b in B1] + [{"nel": 2, "N": 3, "bcs": B2[0], "other_first": True}] + [{"nel": 2, "N": 4, "bcs": b, "order": o} for b in B2 for o in ([0, 1], [1, 0])] + [{"nel": 3, "N": 3, "bcs": ((COMP, FLUX), (None, None), (FLUX, COMP)), "order": [2, 0, 1]}]}),
     Harness("C04.homog", homog, functions=_F, assumptions=_A, stubs=_S, bounds={"solutes": "nel", "nodes": "N"}, opts={"ob_timeout": 40.0},
             params={"quick": [{"nel": 1, "N": 3, "bcs": b} for b in B1[:3]] + [{"nel": 2, "N": 3, "bcs": B2[1]}, {"nel": 2, "N": 2, "bcs": B2[0], "order": [1, 0]}],
                     "thorough": [{"nel": 1, "N": 4, "bcs": b} for b in B1] + [{"nel": 2, "N": 3, "bcs": b, "order": o} for b in B2 for o in ([0, 1], [1, 0])] +
@@ -308,5 +313,5 @@ HARNESSES = [
                     "thorough": [{"model": "single", "kind_": k, "nel": 1, "N": 3, "bcs": b} for k in ("euler", "rk4") for b in B1[:3]] +
                                 [{"model": "homog", "kind_": "euler", "nel": 1, "N": 3, "bcs": b} for b in B1[:3]] + [{"model": "single", "kind_": "euler", "nel": 2, "N": 3, "bcs": B2[1]}]}),
     Harness("C04.clip", clip, functions=_F, assumptions=_A + ["initial profile >= 0 with node sums <= 1"], stubs=_S,
-            params={"quick": [{"nel": 1, "N": 2}, {"nel": 2, "N": 2}, {"nel": 1, "N": 3, "both": True}], "thorough": [{"nel": 2, "N": 3}, {"nel": 3, "N": 2}, {"nel": 2, "N": 3, "both": True}]}),
+            params={"quick": [{"nel": 1, "N": 2}, {"nel": 2, "N": 2}, {"nel": 1, "N": 3, "both": True}, {"nel": 1, "N": 3, "both": True, "strnames": True}], "thorough": [{"nel": 2, "N": 3}, {"nel": 3, "N": 2}, {"nel": 2, "N": 3, "both": True}]}),
 ]
